@@ -119,18 +119,77 @@ fn c11a_retention_by_age_and_number() {
     std::mem::forget(slot);
 }
 
+/// The two age tests the retention rules are built from: a delta is
+/// "younger than s" iff its age is below s, "older than s" iff above; never
+/// both; at exactly s it is neither (so it is kept by the remainder rule).
+// vk: bound=age 0..2^17 s, threshold any u32, now in a 2^20 s window
+#[kani::proof]
+#[kani::stub(rpki::repository::x509::Time::now, stub_now)]
+fn c11c_delta_age_tests() {
+    let now = sym_now();
+    let age: u32 = kani::any();
+    kani::assume(age < (1 << 17));
+    let secs: u32 = kani::any();
+    let d = delta_at(5, age, now);
+    let younger = d.younger_than_seconds(secs.into());
+    let older = d.older_than_seconds(secs.into());
+    assert!(younger == (age < secs));
+    assert!(older == (age > secs));
+    assert!(!(younger && older));
+    assert!(d.serial() == 5);
+    kani::cover!(younger);
+    kani::cover!(older);
+    kani::cover!(!younger && !older);
+    std::mem::forget(d);
+}
+
+/// The property's flat wording - "the retained deltas never exceed the
+/// configured maximum number" - for configurations with min < max.
+/// KNOWN FINDING K1 (known_findings.txt): by documented design every delta
+/// younger than `rrdp_delta_files_min_seconds` is kept even beyond
+/// `rrdp_delta_files_max_nr`, so this assertion fails on the unchanged tree
+/// for e.g. max_nr = 1 and two deltas from the last few seconds. Any other
+/// way of exceeding the maximum is caught by c11a (which encodes the
+/// documented rules and passes).
+// vk: bound=3 existing deltas with arbitrary non-decreasing ages < 2^17 s, 0 <= min < max <= 8, min/max age 0..=65535 s
+#[kani::proof]
+#[kani::unwind(6)]
+#[kani::stub(rpki::repository::x509::Time::now, stub_now)]
+fn c11k_retained_never_exceeds_maximum() {
+    let now = sym_now();
+    let ages: [u32; 3] = kani::any();
+    kani::assume(ages[0] < (1 << 17) && ages[1] < (1 << 17) && ages[2] < (1 << 17));
+    kani::assume(ages[0] <= ages[1] && ages[1] <= ages[2]);
+    let mut deltas = VecDeque::new();
+    deltas.push_back(delta_at(9, ages[0], now));
+    deltas.push_back(delta_at(8, ages[1], now));
+    deltas.push_back(delta_at(7, ages[2], now));
+    let mut slot = std::mem::MaybeUninit::<RrdpServer>::uninit();
+    let p = slot.as_mut_ptr();
+    unsafe { std::ptr::addr_of_mut!((*p).deltas).write(deltas); }
+    let server: &RrdpServer = unsafe { &*p };
+    let cfg = any_rrdp_config();
+    kani::assume(cfg.rrdp_delta_files_min_nr < cfg.rrdp_delta_files_max_nr);
+    let keep = server.find_deltas_truncate_age(cfg);
+    kani::cover!(keep == 2);
+    kani::cover!(keep == 0);
+    // retained = kept older deltas + the one being added
+    assert!(keep + 1 <= cfg.rrdp_delta_files_max_nr);
+    std::mem::forget(slot);
+}
+
 /// One in-memory RRDP update: the serial grows by exactly one, the new delta
 /// carries the new serial and sits in front of the retained older ones, which
 /// are a prefix of the previous list; so if the retained deltas were a
 /// contiguous run ending at the old serial they are one ending at the new.
 // vk: bound=2 existing deltas (no elements), no staged publishers, truncate position 0..=3, serial any u64 below u64::MAX
 #[kani::proof]
-#[kani::unwind(6)]
+#[kani::unwind(8)]
 #[kani::stub(rpki::repository::x509::Time::now, stub_now)]
 #[kani::stub(std::hash::RandomState::new, fixed_random_state)]
 #[kani::stub(<std::hash::DefaultHasher as std::hash::Hasher>::finish, const_finish)]
 #[kani::stub(<std::hash::DefaultHasher as std::hash::Hasher>::write, noop_write)]
-fn c11b_update_step_serial_and_contiguity() {
+fn x11b_update_step_serial_and_contiguity() {
     let now = sym_now();
     let serial: u64 = kani::any();
     kani::assume(serial >= 2 && serial < u64::MAX);
